@@ -1,10 +1,12 @@
 """C15 helper: seeded generator of programs with generic functions. A program is a list of *units*
 (each: helpers + 1..3 generic functions + call sites in several modules); every unit is a pure function
-of (seed, unit key, layout, position), so a unit can be re-generated alone for attribution."""
+of (seed, unit key, layout, position), so a unit can be re-generated alone for attribution.
+Concrete types at call sites include the pool's type definitions and type aliases (POOL_NAMED, ORT) and lists / instantiations of
+them; unit kinds `typedef` and `samename` are about them (see their docstrings)."""
 import random
 
-from checks.c15_lang import (FuncDef, StructDef, V, L, GI, S, ZAHL, KOMMA, TEXT, CHAR, BOOL, BYTE, subst, unify, tvars,
-                             TypeErrorInModel, contains_nested_list)
+from checks.c15_lang import (FuncDef, StructDef, V, L, GI, S, D, A, ZAHL, KOMMA, TEXT, CHAR, BOOL, BYTE, subst, unify, tvars,
+                             TypeErrorInModel, contains_nested_list, canon, named_in, defs_in)
 from checks.c15_prog import Program, Module
 
 LAYOUTS = ['one', 'two', 'three', 'hidden']
@@ -26,6 +28,22 @@ BASE_W = [5, 3, 5, 2, 2, 1]
 LISTS = [L(ZAHL), L(TEXT), L(KOMMA), L(CHAR), L(BOOL)]
 STRUCTY = [S('Punkt'), VZ, VT, GI('Paar', ZAHL, TEXT), GI('Kiste', ZAHL), GI('Vektor2', VZ), GI('Paar', TEXT, VZ), L(S('Punkt')), L(VZ),
            GI('Paar', L(ZAHL), BOOL), GI('Vektor2', KOMMA), GI('Kiste', TEXT)]
+
+
+# type definitions and type aliases of the pool: public, declared in the module of the generic Kombinationen or in a module of
+# their own that every module imports (Gen.tymod); `Ort` defines a Kombination and always lives next to it
+# (masculine / feminine names only: a neuter type cannot be written as a field type, see the assumptions of c15.py)
+METER, WORT, PEGEL = D('Meter', ZAHL, 'm'), D('Begriff', TEXT, 'm'), D('Pegel', KOMMA, 'm')
+ORT = D('Ort', S('Punkt'), 'm')
+NUMMER, SILBE = A('Nummer', ZAHL, 'f'), A('Silbe', TEXT, 'f')
+STRECKE = A('Strecke', METER, 'f')            # alias of a definition
+POOL_NAMED = [METER, WORT, PEGEL, NUMMER, SILBE, STRECKE]
+NAMED_SCALAR = [METER, WORT, NUMMER, STRECKE, PEGEL, SILBE, ORT]
+NAMED_SCALAR_W = [6, 4, 5, 2, 1, 2, 2]
+NAMED_COMPOSITE = [GI('Vektor2', METER), GI('Kiste', METER), L(METER), GI('Paar', METER, ZAHL), GI('Vektor2', NUMMER), L(NUMMER), GI('Kiste', NUMMER),
+                   GI('Vektor2', WORT), L(WORT), GI('Paar', ZAHL, STRECKE), GI('Vektor2', ORT), L(ORT), GI('Paar', SILBE, METER), GI('Kiste', SILBE)]
+# (definition, its base, an alias of the base or None, an alias of the definition or None)
+TRIPLES = [(METER, ZAHL, NUMMER, STRECKE), (METER, ZAHL, NUMMER, STRECKE), (WORT, TEXT, SILBE, None), (PEGEL, KOMMA, None, None), (ORT, S('Punkt'), None, None)]
 
 
 def pattern_depth(t):
@@ -87,6 +105,8 @@ class Unit:
         self.flags = {}                                # fname -> {tparam: set(flags)}
         self.funcs = []                                # all FuncDefs (for registration)
         self.raws = {'D': [], 'I': [], 'M': []}        # module-level source lines (type declarations) placed before the helpers
+        self.private_named = set()                     # those of self.named that are declared without `öffentlich` in a module others import
+        self.named = {'D': [], 'I': [], 'M': []}       # type definitions / aliases of the unit's own, declared at the top of that role's module
         self.typename = None                           # a type private to the declaring module that generic bodies mention by name
         self.rt = None                                 # separate PRNG for the type-name feature (keeps the other draws unchanged)
 
@@ -110,6 +130,14 @@ class SiteGen:
             if t == BYTE:
                 return ('cast', lit(ZAHL, r.choice(['7', '200', '0'])), BYTE)
             return lit(t, r.choice(LITS[t]))
+        if k == 'd':
+            # a value of a type definition: a value of its base type, converted
+            return ('cast', self.cval(t[2], pre), t)
+        if k == 'a':
+            # a value of an alias type: a variable declared under the alias name, initialised with a value of the target
+            n = self.fresh()
+            pre.append(('decl', n, t, self.cval(t[2], pre)))
+            return var(n)
         if k == 'l':
             n = self.fresh()
             el = t[1]
@@ -150,7 +178,7 @@ def make_alias(rnd, names, stmt_like=False):
 
 
 class BodyGen:
-    def __init__(self, rnd, gen, unit, f_name, tparams, params, ret, callable_generics, helper, counter, allow_show=True):
+    def __init__(self, rnd, gen, unit, f_name, tparams, params, ret, callable_generics, helper, counter, allow_show=True, pure=False):
         self.rnd, self.gen, self.unit = rnd, gen, unit
         self.structs = gen.structs
         self.f_name, self.tparams, self.params, self.ret = f_name, tparams, params, ret
@@ -164,7 +192,8 @@ class BodyGen:
         if ret is not None:
             self._type_flags(ret)
         self.nloc = 0
-        self.allow_show = allow_show
+        self.allow_show = allow_show and not pure
+        self.pure = pure      # the body names nothing but its parameters, type parameters and public Kombinationen: it means the same in any module
 
     def _type_flags(self, t, under_list=False):
         k = t[0]
@@ -235,6 +264,10 @@ class BodyGen:
                 args = [self.mk(subst(ft, s), depth + 1) for fn, ft in sd.fields]
                 if all(a is not None for a in args):
                     c.append((3, ('ctor', t[1], args)))
+            elif k == 'd':
+                e = self.mk(t[2], depth + 1, allow_calls=False)
+                if e is not None:
+                    c.append((3, ('cast', e, t)))
             elif k == 'p':
                 if t == BYTE:
                     c.append((2, ('cast', lit(ZAHL, '9'), BYTE)))
@@ -253,7 +286,7 @@ class BodyGen:
                     e = self.try_call(g, t, depth)
                     if e is not None:
                         c.append((4, e))
-            if k in ('v', 'p', 's') or (k == 'g' and not self._mentions_list_field(t)):
+            if k in ('v', 'p', 's', 'd') or (k == 'g' and not self._mentions_list_field(t)):
                 c.append((1, ('default', t)))
                 if k == 'v':
                     pass
@@ -346,6 +379,8 @@ class BodyGen:
     def stmt(self, depth=0):
         r = self.rnd
         forms = ['decl', 'decl', 'assign', 'show', 'show', 'note', 'count', 'if_eq', 'repeat', 'foreach', 'voidcall', 'listdecl']
+        if self.pure:
+            forms = ['decl', 'decl', 'assign', 'assign', 'repeat', 'voidcall', 'listdecl']
         f = r.choice(forms)
         if f == 'decl':
             types = [vt for n, vt, a in self.scope] + [ZAHL, TEXT]
@@ -492,6 +527,9 @@ class BodyGen:
             n, t, a = self.scope[0]
             if contains_nested_list(t):
                 return None
+            if self.pure:
+                out.append(('decl', self.fresh(), t, var(n)))
+                return out
             self._shown(t)
             out.append(('show', var(n)))
         return out
@@ -500,10 +538,11 @@ class BodyGen:
 # ------------------------------------------------------------------ program generator
 
 class Gen:
-    def __init__(self, seed, layout_kind, spec_mode, mono):
+    def __init__(self, seed, layout_kind, spec_mode, mono, tymod='D'):
         self.seed = seed
         self.layout = Layout(layout_kind)
         self.spec_mode, self.mono = spec_mode, mono
+        self.tymod = tymod          # 'D': the pool's type definitions live in the declaring module; 'third': in module `typen`, imported by all
         self.structs = pool_structs()
 
     # ---- type patterns
@@ -537,8 +576,16 @@ class Gen:
         if 'struct' in flags:
             return r.choice([t for t in STRUCTY if t[0] != 'l' and not ('nopaar' in flags and two_param_top(t))])
         if 'prim' in flags:
+            if not simple_only and r.random() < 0.2:
+                return r.choices(NAMED_SCALAR[:6], NAMED_SCALAR_W[:6])[0]      # definitions / aliases of primitives can be compared
             return r.choices(BASE[:5], BASE_W[:5])[0]
         base, base_w = BASE, BASE_W
+        if not simple_only and r.random() < 0.24:
+            # a type definition, a type alias, or a list / an instantiation of one
+            if r.random() < 0.5:
+                return r.choices(NAMED_SCALAR, NAMED_SCALAR_W)[0]
+            cands = [t for t in NAMED_COMPOSITE if not ('nolist' in flags and t[0] == 'l') and not ('nopaar' in flags and two_param_top(t))]
+            return r.choice(cands)
         x = r.random()
         if simple_only:
             if x < 0.7 or 'nolist' in flags:
@@ -570,7 +617,7 @@ class Gen:
         if extra < 0.25 and len(params) < 3:
             params.append((pn.pop(0), self.param_pattern(r, V(r.choice(tps))), r.random() < 0.15))
         elif extra < 0.4 and len(params) < 3:
-            params.append((pn.pop(0), r.choice([ZAHL, TEXT, S('Punkt'), L(ZAHL)]), False))
+            params.append((pn.pop(0), r.choice([ZAHL, TEXT, S('Punkt'), L(ZAHL), METER, GI('Vektor2', METER), NUMMER]), False))
         if not force.get('counter'):
             r.shuffle(params)
         ret = force['ret'] if 'ret' in force else self.ret_pattern(r, tps)
@@ -587,9 +634,9 @@ class Gen:
         f = FuncDef(name, params, ret, alias, [], tparams=tps, public=public)
         return f
 
-    def fill_body(self, r, unit, f, earlier, helper, counter, recursion=None, nst=None):
+    def fill_body(self, r, unit, f, earlier, helper, counter, recursion=None, nst=None, pure=False):
         for _ in range(6):
-            bg = BodyGen(r, self, unit, f.name, f.tparams, f.params, f.ret, earlier, helper, counter)
+            bg = BodyGen(r, self, unit, f.name, f.tparams, f.params, f.ret, earlier, helper, counter, pure=pure)
             body = bg.body(r.randint(1, 4) if nst is None else nst, recursion)
             if body is not None:
                 # state and helpers of the declaring module are used on purpose (so that a wrong scope is observable)
@@ -598,7 +645,7 @@ class Gen:
                     pre.append(('assign', var(counter), ('bin', 'plus', var(counter), lit(ZAHL, '1'))))
                 if helper is not None and r.random() < 0.6:
                     pre.append(('show', ('call', helper.name, [lit(ZAHL, r.choice(['1', '5', '9']))])))
-                if unit.typename is not None and unit.rt.random() < 0.75:
+                if unit.typename is not None and not pure and unit.rt.random() < 0.75:
                     if unit.typename.startswith('Mass'):
                         pre.append(('raw', 'Schreibe (((%s durch 2) als %s) als Text).' % (unit.rt.choice(['7', '9', '15']), unit.typename)))
                     else:
@@ -613,15 +660,19 @@ class Gen:
         return False
 
     # ---- call sites
-    def gen_sites(self, r, unit, f, roles, nsites, hidden_main=False, simple_all=False):
+    def gen_sites(self, r, unit, f, roles, nsites, hidden_main=False, simple_all=False, forced=None, callee=None):
         """hidden_main: main does not import decl, so main cannot name its Kombinationen; simple_all: a public function of mitte
         whose signature mentions a Kombination of decl crashes the code generator when main imports mitte only (plain-module
         defect, not this check's subject) - specialisations of mitte's generics would be such functions"""
         flags = unit.flags[f.name]
         sigmas = []
-        for k in range(nsites):
+        for k in range(nsites if forced is None else len(forced)):
             role = roles[k % len(roles)]
-            if sigmas and r.random() < 0.3:
+            if forced is not None:
+                # (role, sigma) given by the caller; callee(ptypes) names the function the model expects the call to resolve to
+                role, s = forced[k]
+                s = dict(s)
+            elif sigmas and r.random() < 0.3:
                 s = dict(r.choice(sigmas))      # repeated identical instantiation (often from another module)
             else:
                 s = {}
@@ -646,7 +697,8 @@ class Gen:
                     args.append(lit(ZAHL, r.choice(['0', '1', '2', '3'])))
                 else:
                     args.append(sg.cval(at, pre))
-            call = ('opcall' if f.operator else 'call', f.name, args)
+            target = f if callee is None else callee(ptypes)
+            call = ('opcall' if f.operator else 'call', target.name, args)
             st = list(pre)
             if f.ret is None:
                 st.append(('expr', call))
@@ -777,6 +829,133 @@ class Gen:
             self.gen_sites(r, u, f, roles, r.randint(1, 3), hidden_main=(lay.kind == 'hidden'))
         self._drivers_counter(u, counter)
         self._shadow(r, u, helper, counter)
+        return True
+
+    def unit_typedef(self, r, u, pos):
+        """ONE generic function - and through its parameter pattern ONE generic Kombination - instantiated in the same program with a
+        type definition, with the definition's base type, with an alias of the base (the SAME type as the base) and with an alias of
+        the definition, in a random order and from several modules; values of each flow through it and are shown by the overload of
+        `zeige` for their type (which prints the definition's name). The definition lives in the pool (module of the generic function
+        or a third module, Gen.tymod) or in the CALLING module ('caller': the generic body is then kept free of names private to its
+        module, because its specialisation for that type can only be written where the type can be named)."""
+        lay = self.layout
+        rt = u.rt
+        callers = [x for x in lay.roles_distinct_from_D() if not (lay.kind == 'hidden' and x == 'M')]
+        place = rt.choice(['pool', 'pool', 'caller']) if callers else 'pool'
+        variant = rt.choice(['pattern', 'pattern', 'tolist', 'overload'])
+        T = V('T')
+        X = None
+        if place == 'caller':
+            X = rt.choice(callers)
+            base = rt.choice([ZAHL, ZAHL, TEXT, KOMMA])
+            d = D('Elle_u%d' % u.uid, base, rt.choice('mf'))
+            al = A('Zweit_u%d' % u.uid, base, 'f') if rt.random() < 0.7 else None
+            ald = A('Spanne_u%d' % u.uid, d, 'f') if rt.random() < 0.4 else None
+            u.named[X] = [d] + [x for x in (al, ald) if x is not None]
+            helper = counter = None
+            pure = True
+        else:
+            d, base, al, ald = rt.choice(TRIPLES)
+            helper, counter = self._common(r, u, 0)
+            pure = False
+        if variant == 'tolist':
+            params, ret = [('a', T, False)], L(T)
+        else:
+            pat = rt.choice([GI('Vektor2', T), GI('Vektor2', T), GI('Kiste', T), L(GI('Vektor2', T)), GI('Paar', T, ZAHL), GI('Paar', T, T), GI('Paar', TEXT, T)])
+            noref = variant == 'overload'
+            params = [('a', pat, (not noref) and rt.random() < 0.2)]
+            if rt.random() < 0.5:
+                params.append(('b', rt.choice([T, T, L(T)]), (not noref) and rt.random() < 0.2))
+            ret = rt.choice([T, T, L(T), GI('Vektor2', T), pat, None, ZAHL])
+        if ret is None and (pure or variant == 'overload') and not any(p[2] for p in params):
+            ret = T
+        stem = rt.choice(STEMS)
+        f = FuncDef('%s_u%da' % (stem, u.uid), params, ret, make_alias(rt, [p[0] for p in params], stmt_like=(ret is None)), [], tparams=['T'], public=True)
+        if not self.fill_body(r, u, f, [], helper, counter, pure=pure):
+            return False
+        fl = u.flags[f.name]['T']
+        if 'prim' in fl and canon(base)[0] != 'p':
+            return False
+        plain = None
+        if variant == 'overload':
+            # a NON-generic function with the same alias whose parameters have the types of the instantiation T = definition:
+            # a call with the definition must resolve to it, a call with the base type to the generic function
+            sd = {'T': d}
+            plain = FuncDef('fest_u%d' % u.uid, [(pn, subst(pt, sd), ref) for pn, pt, ref in params], None if ret is None else subst(ret, sd), f.alias, [],
+                            public=True, word=f.word)
+            if not self.fill_body(r, u, plain, [], None, None, pure=pure):
+                return False
+            if place == 'caller':
+                plain.body = [('show', lit(TEXT, '"feste Fassung"'))] + plain.body     # declared in the calling module: may use its `zeige`
+                plain.public = False
+                u.helpers[X].append(plain)
+                u.funcs.append(plain)
+                self._register(u, 'D', f)
+            else:
+                plain.body = [('show', lit(TEXT, '"feste Fassung"'))] + plain.body
+                for g in ([plain, f] if rt.random() < 0.5 else [f, plain]):
+                    self._register(u, 'D', g)
+            u.feats.add('typedef-overload-vs-generic')
+        else:
+            self._register(u, 'D', f)
+            u.feats.add('typedef-to-list' if variant == 'tolist' else 'typedef-in-kombination-pattern')
+        kinds = [d, base] + ([al] if al is not None else []) + ([ald] if ald is not None and rt.random() < 0.6 else [])
+        rt.shuffle(kinds)
+        if rt.random() < 0.3:
+            kinds.append(rt.choice(kinds))
+        roles = self.site_roles(r)
+        own = set(t[1] for t in u.named[X]) if X else set()
+        forced = []
+        for i, ty in enumerate(kinds):
+            role = X if any(n[1] in own for n in named_in(ty)) else roles[i % len(roles)]
+            forced.append((role, {'T': ty}))
+        callee = None
+        if plain is not None:
+            want = [canon(p[1]) for p in plain.params]
+            callee = lambda ptypes: plain if [canon(t) for t in ptypes] == want else f
+        sig = self.gen_sites(r, u, f, roles, 0, hidden_main=(lay.kind == 'hidden'), forced=forced, callee=callee)
+        if len(sig) < 2:
+            return False
+        u.feats.add('typedef-with-base' + ('-and-alias' if al is not None else ''))
+        if place == 'caller':
+            u.feats.add('typedef-declared-in-caller')
+        if not pure:
+            self._drivers_counter(u, counter)
+            self._shadow(r, u, helper, counter)
+        return True
+
+    def unit_samename(self, r, u, pos):
+        """two calling modules each declare a PRIVATE type definition under the same name and instantiate one generic function -
+        and through it one generic Kombination - with it: two different types (layout `three` only: mitte and main both import decl)"""
+        lay = self.layout
+        if lay.kind != 'three':
+            return self.unit_typedef(r, u, pos)
+        rt = u.rt
+        T = V('T')
+        name = 'Elle_u%d' % u.uid
+        bases = rt.choice([(ZAHL, TEXT), (TEXT, ZAHL), (ZAHL, ZAHL), (KOMMA, ZAHL)])
+        di, dm = D(name, bases[0], 'f'), ('d', name, bases[1], 'main')      # distinct tuples even for equal bases
+        u.named['I'], u.named['M'] = [di], [dm]
+        u.private_named = {di, dm}
+        shape = rt.choice(['wrap', 'unwrap', 'local'])
+        if shape == 'wrap':
+            f = FuncDef('hülle_u%da' % u.uid, [('a', T, False)], GI('Vektor2', T), '{W} <a>',
+                        [('ret', ('ctor', 'Vektor2', [var('a'), ('default', T)]))], tparams=['T'], public=True)
+        elif shape == 'unwrap':
+            f = FuncDef('kern_u%da' % u.uid, [('a', GI('Vektor2', T), False)], T, '{W} <a>', [('ret', ('field', 'vy', var('a')))], tparams=['T'], public=True)
+        else:
+            f = FuncDef('lokal_u%da' % u.uid, [('a', T, False)], T, '{W} <a>',
+                        [('decl', 'h1', GI('Vektor2', T), ('ctor', 'Vektor2', [('default', T), var('a')])), ('ret', ('field', 'vy', var('h1')))], tparams=['T'], public=True)
+        u.flags[f.name] = {'T': set()}
+        self._register(u, 'D', f)
+        forced = [('I', {'T': di}), ('M', {'T': dm})]
+        if rt.random() < 0.5:
+            forced.append((rt.choice(['D', 'I', 'M']), {'T': rt.choice(bases)}))
+        rt.shuffle(forced)
+        if len(self.gen_sites(r, u, f, ['I', 'M'], 0, forced=forced)) < 2:
+            return False
+        u.feats.add('typedef-same-name-in-two-callers')
+        u.feats.add('typedef-declared-in-caller')
         return True
 
     def unit_relay(self, r, u, pos):
@@ -1028,16 +1207,41 @@ class Gen:
             mods = [Module('decl', 'D'), Module('mitte', 'I', ['decl']), Module('main', 'M', ['decl', 'mitte'])]
         else:
             mods = [Module('decl', 'D'), Module('mitte', 'I', ['decl']), Module('main', 'M', ['mitte'])]
+        if self.tymod == 'third':
+            # the pool's type definitions and aliases in a module of their own, imported (first) by every module
+            for m in mods:
+                m.imports.insert(0, 'typen')
+            mods.insert(0, Module('typen', 'T'))
         pr.modules = mods
         bymod = {m.name: m for m in mods}
         dmod = bymod[lay.mods['D']]
-        for n in ('Punkt', 'Vektor2', 'Paar', 'Kiste'):
-            dmod.add('struct', n)
         roles_of = {}
         for role in ('D', 'I', 'M'):
             roles_of.setdefault(lay.mods[role], []).append(role)
+
+        def declare(m, t, private=False):
+            if t in pr.named_mod:
+                return
+            pr.named_mod[t] = m.name
+            if private:
+                pr.named_private.add(t)
+            m.add('named', t)
+        for t in POOL_NAMED:
+            declare(bymod['typen'] if self.tymod == 'third' else dmod, t)
+        # the units' own type definitions: at the top of their module (before `zeige`, whose overloads mention them)
+        for m in mods:
+            for u in units:
+                for role in roles_of.get(m.name, []):
+                    for t in u.named[role]:
+                        declare(m, t, private=(t in u.private_named))
+        dmod.add('struct', 'Punkt')
+        declare(dmod, ORT)
+        for n in ('Vektor2', 'Paar', 'Kiste'):
+            dmod.add('struct', n)
         main_calls = []
         for m in mods:
+            if m.name == 'typen':
+                continue
             roles = roles_of.get(m.name, [])
             m.add('zeige')
             for u in units:
@@ -1074,6 +1278,8 @@ class Gen:
                             f = it[1]
                             f.public = f.public and (m is not mods[-1])
                             pr.add_func(m, f)
+            if m is not dmod and any(u.named[role] for u in units for role in roles):
+                m.add('spechome')
             for u in units:
                 for role in roles:
                     if not u.sites[role]:
@@ -1106,8 +1312,8 @@ class Gen:
         return pr
 
 
-UNIT_KINDS = [('plain', 8), ('relay', 3), ('recursive', 3), ('operator', 3), ('innergeneric', 2)]
-SOLO_KINDS = ['paramname', 'nested', 'emptybody', 'deepparam', 'deepreturn']     # poison a batch (rejected / not compilable as a whole): always alone
+UNIT_KINDS = [('plain', 8), ('relay', 3), ('recursive', 3), ('operator', 3), ('innergeneric', 2), ('typedef', 5)]
+SOLO_KINDS = ['paramname', 'nested', 'emptybody', 'deepparam', 'deepreturn', 'samename']     # poison a batch (rejected / not compilable as a whole): always alone
 
 
 def body_calls(body, acc):
@@ -1128,9 +1334,46 @@ def body_calls(body, acc):
     return acc
 
 
+def site_types(u):
+    """the types spelled at the call sites of the unit (declarations, conversions, list literals)"""
+    acc = []
+
+    def we(e):
+        if not isinstance(e, tuple) or not e:
+            return
+        if e[0] == 'decl':
+            acc.append(e[2])
+        elif e[0] == 'cast':
+            acc.append(e[2])
+        elif e[0] in ('listlit', 'default'):
+            acc.append(e[1])
+        for x in e[1:]:
+            if isinstance(x, tuple) and x and isinstance(x[0], str) and x[0] in ('decl', 'cast', 'listlit', 'default', 'call', 'opcall', 'ctor', 'show', 'expr', 'field',
+                                                                                 'index', 'concat', 'bin', 'assign', 'print', 'write', 'len'):
+                we(x)
+            elif isinstance(x, list):
+                for y in x:
+                    we(y)
+    for role in ('D', 'I', 'M'):
+        for grp in u.sites[role]:
+            for st in grp:
+                we(st)
+    return acc
+
+
 def unit_features(u):
     """features recomputed from what the unit contains (after minimisation: what was needed)"""
     fs = set()
+    st = site_types(u)
+    if any(defs_in(t) for t in st):
+        fs.add('typedef-instantiation')
+    if any(n[0] == 'a' for t in st for n in named_in(t)):
+        fs.add('alias-instantiation')
+    if any(defs_in(t) and t[0] in ('g', 'l') for t in st):
+        fs.add('typedef-inside-kombination-or-list')
+    for f in u.feats:
+        if f.startswith('typedef-'):
+            fs.add(f)
     gens = [it[1] for role in ('D', 'I', 'M') for it in u.gens[role] if it[0] == 'func']
     gnames = {g.name for g in gens}
     for f in u.feats:
